@@ -342,3 +342,289 @@ pub fn run(ctx: &mut Ctx) {
         ctx.emit(exec_mat(ops, seed));
     }
 }
+
+// ====================================================================== C04: planted instances
+
+fn apat_to_text(p: &APat) -> String {
+    to_pattern(p).to_string()
+}
+
+fn inst_term(p: &APat, vars: &[(String, ATerm)], back: &dyn Fn(u32) -> u32) -> ATerm {
+    match p {
+        APat::PVar(v) => vars.iter().find(|(n, _)| n == v).unwrap().1.clone(),
+        APat::Node(v, fields, cs) => {
+            fn f(c: &CField, back: &dyn Fn(u32) -> u32) -> CField {
+                match c {
+                    CField::Slot(s) => CField::Slot(back(*s)),
+                    CField::Bind(s, x) => CField::Bind(back(*s), Box::new(f(x, back))),
+                    x => x.clone(),
+                }
+            }
+            ATerm { v: *v, fields: fields.iter().map(|c| f(c, back)).collect(), children: cs.iter().map(|c| inst_term(c, vars, back)).collect() }
+        }
+    }
+}
+
+fn all_binders(t: &ATerm, out: &mut Vec<u32>) {
+    fn f(c: &CField, out: &mut Vec<u32>) {
+        if let CField::Bind(s, x) = c {
+            out.push(*s);
+            f(x, out)
+        }
+    }
+    t.fields.iter().for_each(|c| f(c, out));
+    t.children.iter().for_each(|c| all_binders(c, out));
+}
+
+/// same children and slots, different operator (so: a different term with the same free slots)
+fn mutate_op(t: &ATerm) -> Option<ATerm> {
+    let v = match t.v {
+        7 => 11,  // f2 -> g2
+        11 => 7,  // g2 -> f2
+        8 => 12,  // f3 -> g3
+        12 => 8,
+        4 => 5,   // add -> mul
+        5 => 4,
+        14 => 4,  // k -> add
+        13 => return Some(ATerm { v: 13, fields: vec![CField::App], children: vec![t.clone()] }), // h(u) ~ h(h(u))
+        _ => return None,
+    };
+    Some(ATerm { v, ..t.clone() })
+}
+
+pub fn exec_plant(seed: u64) -> Vec<Case> {
+    let sig = enc_sig(&Main::sig());
+    let r = in_fresh_thread(move || {
+        intern_names();
+        let mut rng = Rng::new(seed);
+        // 1. a term and a pattern abstracted from it
+        let t0 = loop {
+            let d = rng.range(1, 3);
+            let b = rng.chance(1, 2);
+            let t = gen_term(&mut rng, 3, d, b);
+            let mut bs = Vec::new();
+            all_binders(&t, &mut bs);
+            let mut u = bs.clone();
+            u.sort();
+            u.dedup();
+            // scope of C04: every bound name is bound once (and the generator keeps binder names apart from free names)
+            if u.len() == bs.len() && free_slots(&t).len() <= 4 && !t.children.is_empty() {
+                break t;
+            }
+        };
+        let mut vars: Vec<(String, ATerm)> = Vec::new();
+        let p0 = abstract_term(&t0, &mut rng, &mut vars, 0, &mut Vec::new());
+        if matches!(p0, APat::PVar(_)) {
+            return None;
+        }
+        let mut sl = Vec::new();
+        pat_slots(&p0, &mut sl);
+        let mut img: Vec<u32> = PSLOTS.to_vec();
+        rng.shuffle(&mut img);
+        let (sl2, img2) = (sl.clone(), img.clone());
+        let fwd = move |c: u32| sl2.iter().position(|x| *x == c).map(|i| img2[i % img2.len()]).unwrap_or(c);
+        let (sl3, img3) = (sl.clone(), img.clone());
+        let back = move |c: u32| img3.iter().position(|x| *x == c).and_then(|i| sl3.get(i).copied()).unwrap_or(c);
+        let lhs = rename_apat(&p0, &fwd);
+        // 2. right-hand side over the same variables
+        let pv: Vec<APat> = vars.iter().map(|(v, _)| APat::PVar(v.clone())).collect();
+        let rhs = match (pv.len(), rng.below(3)) {
+            (0, _) | (_, 0) => APat::Node(13, vec![CField::App], vec![lhs.clone()]),
+            (_, 1) => APat::Node(14, vec![CField::App, CField::App], vec![pv[0].clone(), APat::Node(13, vec![CField::App], vec![pv[pv.len() - 1].clone()])]),
+            _ => APat::Node(14, vec![CField::App, CField::App], vec![lhs.clone(), pv[0].clone()]),
+        };
+        let rhs_inst = inst_term(&rhs, &vars, &back);
+        if free_slots(&rhs_inst).iter().any(|s| !free_slots(&t0).contains(s)) || free_slots(&rhs_inst).len() != free_slots(&t0).len() {
+            // a rhs with fewer free slots would make slots redundant: outside the scope of C04
+            return None;
+        }
+        // 3. make the instance present only up to equality
+        let mut eg: EGraph<Main> = EGraph::default();
+        let mut subs = Vec::new();
+        subterms(&t0, &mut subs);
+        let cands: Vec<ATerm> = subs.iter().skip(1).filter(|u| mutate_op(u).is_some() && free_slots(u).iter().all(|s| !BINDERS.contains(s))).cloned().collect();
+        let mut only_up_to_equality = false;
+        if !cands.is_empty() && rng.chance(3, 4) {
+            let u = cands[rng.below(cands.len())].clone();
+            let w = mutate_op(&u).unwrap();
+            fn replace(t: &ATerm, u: &ATerm, w: &ATerm) -> ATerm {
+                if t == u {
+                    return w.clone();
+                }
+                ATerm { v: t.v, fields: t.fields.clone(), children: t.children.iter().map(|c| replace(c, u, w)).collect() }
+            }
+            let t1 = replace(&t0, &u, &w);
+            eg.add_expr(to_recexpr::<Main>(&t1));
+            let a = eg.add_expr(to_recexpr::<Main>(&u));
+            let b2 = eg.add_expr(to_recexpr::<Main>(&w));
+            eg.union(&a, &b2);
+            only_up_to_equality = true;
+        } else {
+            eg.add_expr(to_recexpr::<Main>(&t0));
+        }
+        // optionally a symmetric child class
+        if rng.chance(1, 4) {
+            if let Some(u) = subs.iter().find(|u| free_slots(u).len() >= 2 && u.children.is_empty()) {
+                let fs = free_slots(u);
+                let (x, y) = (fs[0], fs[1]);
+                let sw = rename_free(u, &move |c| if c == x { y } else if c == y { x } else { c });
+                let a = eg.add_expr(to_recexpr::<Main>(u));
+                let b2 = eg.add_expr(to_recexpr::<Main>(&sw));
+                eg.union(&a, &b2);
+            }
+        }
+        let mut tags: Vec<String> = Vec::new();
+        // scope: no class with a redundant slot
+        if eg.ids().iter().any(|i| eg.enodes(*i).iter().any(|n| n.slots().len() > eg.slots(*i).len())) {
+            return None;
+        }
+        let lhs_re = to_recexpr::<Main>(&t0);
+        let Some(root) = lookup_rec_expr(&lhs_re, &eg) else { return None };
+        // the planted substitution, in pattern slot names
+        let mut sigma: Subst = Subst::default();
+        for (v, u) in &vars {
+            let Some(a) = lookup_rec_expr(&to_recexpr::<Main>(u), &eg) else { return None };
+            let m: SlotMap = a.m.iter().map(|(k, val)| (k, slot_of_code(fwd(code(val))))).collect();
+            sigma.insert(v.clone(), AppliedId { id: a.id, m });
+        }
+        let snap_before = eg.verif_snapshot(|_| "-".to_string()).trim_end().replace('\n', "~");
+        let q_before = format!("match {} {}", enc_apat(&lhs), enc_subst(&sigma));
+        // 4. the rule, applied once
+        let rule: Rewrite<Main> = Rewrite::new("plant", &apat_to_text(&lhs), &apat_to_text(&rhs));
+        if let Err(e) = guarded(|| apply_rewrites(&mut eg, &[rule])) {
+            tags.push("viol:apply-rewrites-panics".into());
+            tags.push(format!("panic:{}", e.replace(',', " ")));
+        }
+        let rhs_re = to_recexpr::<Main>(&rhs_inst);
+        match guarded(|| lookup_rec_expr(&rhs_re, &eg)) {
+            Ok(Some(b2)) => {
+                if !eg.eq(&b2, &root) {
+                    tags.push("viol:rhs-instance-not-equal-to-lhs-instance".into());
+                }
+            }
+            _ => tags.push("viol:planted-instance-did-not-fire".into()),
+        }
+        let snap_after = eg.verif_snapshot(|_| "-".to_string()).trim_end().replace('\n', "~");
+        // after the rewrite the planted substitution (re-canonicalised) must make the RIGHT pattern represented too
+        let mut sigma2: Subst = Subst::default();
+        for (v, a) in &sigma {
+            sigma2.insert(v.clone(), eg.find_applied_id(a));
+        }
+        let q_after = format!("match {} {}", enc_apat(&rhs), enc_subst(&sigma2));
+        if only_up_to_equality {
+            tags.push("only-up-to-equality".into());
+        }
+        tags.push(format!("rule:{} => {}", apat_to_text(&lhs).replace(',', "~"), apat_to_text(&rhs).replace(',', "~")));
+        tags.push(format!("instance:{}", enc_term(&t0).replace(',', "~")));
+        Some((snap_before, q_before, snap_after, q_after, tags, only_up_to_equality))
+    });
+    match r {
+        Ok(Some((sb, qb, sa, qa, tags, nt))) => vec![
+            Case { line: format!("snap {sig};{sb};{qb}"), impl_out: "1".into(), nontrivial: nt, tags: tags.clone() },
+            Case { line: format!("snap {sig};{sa};{qa}"), impl_out: "1".into(), nontrivial: nt, tags: tags.iter().filter(|t| !t.starts_with("viol:")).cloned().collect() },
+        ],
+        Ok(None) => vec![],
+        Err(e) => vec![Case { line: format!("snap {sig};;"), impl_out: format!("PANIC {e}"), nontrivial: true, tags: vec!["viol:panic".into(), format!("panic:{}", e.replace(',', " ")), format!("seed:{seed}")] }],
+    }
+}
+
+/// a symmetric child under a pattern that descends into it with slots: every symmetry of the child gives a
+/// different instance of the right side, and all of them must be represented afterwards
+pub fn exec_symplant(seed: u64) -> Vec<Case> {
+    let sig = enc_sig(&Main::sig());
+    let r = in_fresh_thread(move || {
+        intern_names();
+        let mut rng = Rng::new(seed);
+        let leaf = |v: usize, sl: &[u32]| ATerm { v, fields: sl.iter().map(|s| CField::Slot(*s)).collect(), children: vec![] };
+        let bin = |v: usize, a: ATerm, b: ATerm| ATerm { v, fields: vec![CField::App, CField::App], children: vec![a, b] };
+        let un = |v: usize, a: ATerm| ATerm { v, fields: vec![CField::App], children: vec![a] };
+        let n = if rng.chance(1, 2) { 2 } else { 3 };
+        let slots: Vec<u32> = FREE[..n].to_vec();
+        let (cv, gv) = if n == 2 { (7usize, 11usize) } else { (8usize, 12usize) }; // f2/g2 or f3/g3
+        let u = leaf(cv, &slots);
+        // the asymmetric sibling mentions one of the slots
+        let sib = match rng.below(3) {
+            0 => leaf(10, &slots[0..1]),
+            1 => un(13, leaf(10, &slots[1..2])),
+            _ => leaf(2, &slots[0..1]),
+        };
+        let outer = if rng.chance(1, 2) { 14 } else { 4 };
+        let t0 = bin(outer, u.clone(), sib.clone());
+        // the symmetry of the child: a random non-identity permutation
+        let mut perm: Vec<usize> = (0..n).collect();
+        while perm == (0..n).collect::<Vec<_>>() {
+            rng.shuffle(&mut perm);
+        }
+        let u_perm = leaf(cv, &perm.iter().map(|&i| slots[i]).collect::<Vec<_>>());
+        let mut eg: EGraph<Main> = EGraph::default();
+        let root = eg.add_expr(to_recexpr::<Main>(&t0));
+        let a = eg.add_expr(to_recexpr::<Main>(&u));
+        let b2 = eg.add_expr(to_recexpr::<Main>(&u_perm));
+        if rng.chance(1, 2) {
+            eg.union(&a, &b2);
+        } else {
+            eg.union(&b2, &a);
+        }
+        if eg.ids().iter().any(|i| eg.enodes(*i).iter().any(|nd| nd.slots().len() > eg.slots(*i).len())) {
+            return None;
+        }
+        // rule: (outer (c $p..) ?z) => (outer (g $p..) ?z)
+        let ps: Vec<u32> = PSLOTS[..n].to_vec();
+        let lhs = APat::Node(outer, vec![CField::App, CField::App], vec![APat::Node(cv, ps.iter().map(|s| CField::Slot(*s)).collect(), vec![]), APat::PVar("z".into())]);
+        let rhs = APat::Node(outer, vec![CField::App, CField::App], vec![APat::Node(gv, ps.iter().map(|s| CField::Slot(*s)).collect(), vec![]), APat::PVar("z".into())]);
+        let rule: Rewrite<Main> = Rewrite::new("symplant", &apat_to_text(&lhs), &apat_to_text(&rhs));
+        let mut tags: Vec<String> = Vec::new();
+        if let Err(e) = guarded(|| apply_rewrites(&mut eg, &[rule])) {
+            tags.push("viol:apply-rewrites-panics".into());
+            tags.push(format!("panic:{}", e.replace(',', " ")));
+        }
+        // every element of the group generated by the permutation gives an instance
+        let mut cur: Vec<usize> = (0..n).collect();
+        let mut expected = 0;
+        loop {
+            let inst = bin(outer, leaf(gv, &cur.iter().map(|&i| slots[i]).collect::<Vec<_>>()), sib.clone());
+            expected += 1;
+            match guarded(|| lookup_rec_expr(&to_recexpr::<Main>(&inst), &eg)) {
+                Ok(Some(x)) => {
+                    if !eg.eq(&x, &root) {
+                        tags.push("viol:rhs-instance-not-equal-to-lhs-instance".into());
+                    }
+                }
+                _ => tags.push("viol:symmetric-instance-did-not-fire".into()),
+            }
+            cur = cur.iter().map(|&i| perm[i]).collect();
+            if cur == (0..n).collect::<Vec<_>>() {
+                break;
+            }
+        }
+        tags.sort();
+        tags.dedup();
+        tags.push(format!("rule:{} => {}", apat_to_text(&lhs).replace(',', "~"), apat_to_text(&rhs).replace(',', "~")));
+        tags.push(format!("instance:{}", enc_term(&t0).replace(',', "~")));
+        let snap = eg.verif_snapshot(|_| "-".to_string()).trim_end().replace('\n', "~");
+        Some((snap, tags, expected))
+    });
+    match r {
+        Ok(Some((snap, tags, _))) => vec![Case { line: format!("snap {sig};{snap};inv"), impl_out: "1".into(), nontrivial: true, tags }],
+        Ok(None) => vec![],
+        Err(e) => vec![Case { line: format!("snap {sig};;"), impl_out: format!("PANIC {e}"), nontrivial: true, tags: vec!["viol:panic".into(), format!("panic:{}", e.replace(',', " ")), format!("seed:{seed}")] }],
+    }
+}
+
+pub fn run_plant(ctx: &mut Ctx) {
+    let mut produced = 0u64;
+    let mut skipped = 0u64;
+    for _ in 0..ctx.count {
+        let seed = ctx.rng.next();
+        let cs = if seed % 4 == 0 { exec_symplant(seed) } else { exec_plant(seed) };
+        if cs.is_empty() {
+            skipped += 1;
+        }
+        for c in cs {
+            produced += 1;
+            ctx.emit(c);
+        }
+    }
+    ctx.note("plant_cases", produced);
+    ctx.note("plants_out_of_scope_or_degenerate", skipped);
+}
